@@ -10,13 +10,15 @@ pub fn scenario_regime(tier: &str, poor: bool) -> (Life, Bounds) {
         name: if poor { "c15-poor" } else { "c15-rich" },
         periods: if th { 5 } else { 3 },
         devs: if th { 2 } else { 1 },
-        bases: if th { vec!["one-deadline-aged", "two-deadlines-aged", "two-deadlines"] } else { vec!["one-deadline-aged"] },
+        bases: if th { vec!["one-deadline-aged", "two-deadlines-aged", "two-deadlines", "long-faulty-debt", "bad-post-closed-debt"] } else { vec!["one-deadline-aged", "long-faulty-debt", "bad-post-closed-debt"] },
         oracles: Oracles { c15: true, ..Default::default() },
         sector_sets: if th { sets_all() } else { sets_small() },
         known_open: mcx::evidence::known_open("C15"),
         property: "C15",
         poor: if poor { Some(TokenAmount::from_nano(1000)) } else { None },
         money_devs: true,
+        precommits: th,
+        horizon: None,
     };
     let b = if th {
         Bounds { max_depth: 400, max_faults: 1, wall_cap_s: 700.0, ..Default::default() }
